@@ -788,6 +788,54 @@ def run_c19_tagging(res, tier, seed):
                               {"note": "HlTag::Module is never produced by ide::ide::semantic_highlighting::highlight"})
 
 
+def run_c19_tag_corners(res, tier, seed):
+    """tagging in the corners of the expression grammar the lowering does not descend into on its own (operands of prefix operators,
+    messages of `panic as` / `todo as`): a function-typed local is tagged as a function there as everywhere else, a local that holds a number
+    and is spelled like a function of the module is not.  Tags fixed by the construction; byte ranges computed from the text."""
+    rng = random.Random(seed * 19 + 7)
+    fnames = ["helper", "pred", "apply", "go"]
+    for variant in range(8 if tier == "quick" else 64):
+        h, pr = rng.sample(fnames, 2)
+        pad = rng.choice(["", "  // ßℝ💣\n", "\n"])
+        text = (f"pub fn {h}(x: Int) {{ x }}\n\n{pad}"
+                f"pub fn check({pr}: fn(Int) -> Bool, n: Int) {{\n"
+                f"  let {h} = 3\n"
+                f"  let neg = -{h}\n"
+                f"  let ok = !{pr}(n)\n"
+                f"  let f = fn(y) {{ y }}\n"
+                f"  let r = !f(True)\n"
+                f"  let plain = {pr}(n)\n"
+                f"  let g = f\n"
+                f"  #(neg, ok, r, plain, g, {h})\n}}\n")
+        def rng_of(needle, delta):
+            i = len(text[:text.index(needle) + delta].encode())
+            return i
+        must = {}      # (start, end) -> tag or None (must be untagged)
+        a = rng_of(f"-{h}", 1); must[(a, a + len(h))] = None
+        a = rng_of(f"!{pr}(n)", 1); must[(a, a + len(pr))] = "Function"
+        a = rng_of("!f(True)", 1); must[(a, a + 1)] = "Function"
+        a = rng_of(f"plain = {pr}(n)", 8); must[(a, a + len(pr))] = "Function"
+        a = rng_of(f"g, {h})", 3); must[(a, a + len(h))] = None
+        lines = ["ws-begin", f"file\t/w/p/src/m1.gleam\t{hexs(text)}", "file\t/w/p/gleam.toml\t" + hexs('name = "p"\n'), "root\t/w/p\t0,1", "pkg\tp\t1\t1\t-", "ws-end", "sem\t0"]
+        out, rc = common.run_lines(common.HARNESS_BIN, lines)
+        res.cov["evaluations"] += len(must)
+        if len(out) != len(lines) or out[-1].startswith("PANIC"):
+            continue
+        tagged = {}
+        if out[-1] not in ("empty", "none"):
+            for hl in out[-1].split(";"):
+                rg, tag = hl.split(":")
+                x, y = rg.split("-")
+                tagged[(int(x), int(y))] = tag
+        for key, want in must.items():
+            got = tagged.get(key)
+            if got != want:
+                res.add_violation("C19/tagging/under-prefix-operators", f"`{text[key[0]:key[1]] if text.isascii() else key}` at bytes {key}: tagged {got}, should be {want} "
+                                  f"(operand of a prefix operator / a local spelled like a module function)",
+                                  {"files": [{"path": "/w/p/src/m1.gleam", "text": text}], "query": "sem\t0", "impl": out[-1][:400]})
+                break
+
+
 def run_c19_ranges_e2e(res, tier, seed):
     """the stream the server SENDS for textDocument/semanticTokens/range, asked with LSP positions: whole lines selected the
     way editors do it - end column far beyond the line (it means the line end), start column beyond the line too - on lines
@@ -921,6 +969,7 @@ def run(prop, res, tier, seed):
         run_c14_e2e(res, tier, seed)
     if prop == "C19":
         run_c19_tagging(res, tier, seed)
+        run_c19_tag_corners(res, tier, seed)
         run_c19_ranges_e2e(res, tier, seed)
     if prop == "C13":
         import p_server
